@@ -30,6 +30,31 @@ func (c genCall) run() string {
 	return code
 }
 
+// runOnOneDocument loads the document once and generates from that one loaded value n times: a program that holds a
+// loaded specification (a build tool generating several packages, a test) calls Generate again with what it has.
+func (c genCall) runOnOneDocument(n int) (outs []string) {
+	spec, err := loadSpec(c.Spec)
+	if err != nil {
+		return []string{"ERROR: load: " + err.Error()}
+	}
+	for i := 0; i < n; i++ {
+		func() {
+			defer func() {
+				if p := recover(); p != nil {
+					outs = append(outs, fmt.Sprintf("ERROR: PANIC: %v", p))
+				}
+			}()
+			code, err := codegen.Generate(spec, c.Cfg)
+			if err != nil {
+				outs = append(outs, "ERROR: "+err.Error())
+				return
+			}
+			outs = append(outs, code)
+		}()
+	}
+	return outs
+}
+
 // runFresh runs the call in a fresh process (this binary, mode gen1).
 func (c genCall) runFresh() (string, error) {
 	b, _ := json.Marshal(c)
